@@ -103,5 +103,28 @@ static bool lpParentComplete(const TasmanianSparseGrid &grid){
     for (int j=0;j<d;j++) for (int s=0;s<2;s++){ int dad = lpParent(r, p[j], s == 1); if (dad < 0) continue; std::vector<int> q = p; q[j] = dad; if (!have.count(q)) return false; } }
   return true;
 }
+// every observable of a grid; output-dependent quantities are stored as strips of length `outs`
+struct Obs { std::vector<long> ints; std::vector<double> coords; std::vector<double> outdep; int outs; int strips; };
+// every observable; output-dependent quantities are stored as strips of length `outs`
+static Obs observe(TasmanianSparseGrid &grid, const std::vector<double> &probe){
+  Obs o; int d = grid.getNumDimensions(); o.outs = grid.getNumOutputs();
+  if (grid.empty()){ o.ints = {-1}; o.strips = 0; return o; }
+  o.ints = {d, grid.getNumLoaded(), grid.getNumNeeded(), grid.getNumPoints(), (long) grid.isUsingConstruction(), (long) grid.getRule(), grid.getOrder(), (long) grid.isSetDomainTransfrom(),
+            (long) grid.isGlobal(), (long) grid.isSequence(), (long) grid.isLocalPolynomial(), (long) grid.isWavelet(), (long) grid.isFourier()};
+  for (int l : grid.getLevelLimits()) o.ints.push_back(l);
+  auto add = [&](const std::vector<double> &v){ o.coords.insert(o.coords.end(), v.begin(), v.end()); };
+  add(grid.getLoadedPoints()); add(grid.getNeededPoints());
+  if (grid.isSetDomainTransfrom()){ std::vector<double> a, b; grid.getDomainTransform(a, b); add(a); add(b); }
+  if (grid.getNumPoints() > 0) add(grid.getQuadratureWeights());
+  int n = grid.getNumLoaded();
+  if (n > 0 && o.outs > 0){
+    const double *v = grid.getLoadedValues(); o.outdep.insert(o.outdep.end(), v, v + (size_t) n * o.outs);
+    const double *c = grid.getHierarchicalCoefficients(); o.outdep.insert(o.outdep.end(), c, c + (size_t) (grid.isFourier() ? 2 : 1) * n * o.outs);
+    std::vector<double> y; grid.evaluateBatch(probe, y); o.outdep.insert(o.outdep.end(), y.begin(), y.end());
+    std::vector<double> q; grid.integrate(q); o.outdep.insert(o.outdep.end(), q.begin(), q.end());
+  }
+  o.strips = o.outs ? (int) o.outdep.size() / o.outs : 0;
+  return o;
+}
 static inline std::vector<double> pointAt(const std::vector<double> &pts, int dims, int i){ return std::vector<double>(pts.begin() + (size_t) i * dims, pts.begin() + (size_t) (i + 1) * dims); }
 #endif
